@@ -5,6 +5,7 @@
 From Coq Require Import ZArith NArith List String Bool. Import ListNotations.
 From TP Require Import Base.PyVal Base.PyOps Errors.Template Errors.Render Errors.Parse Errors.TemplateOk Errors.Collect
   Errors.ErrorsProofs Errors.Guard Errors.GuardProofs Errors.GuardSchema Errors.GuardTableProofs Gen.Templates Gen.GuardProgs.
+From TP Require Import Errors.Switch Errors.SwitchProofs Errors.SwitchTableProofs Gen.SwitchSites.
 Local Open Scope list_scope.
 
 (* The generated table, today: every template of a covered (scalar / collection-of-scalar)
@@ -224,6 +225,31 @@ Theorem C18_restricted_domains_suffice :
   gsafe {| a_vars := [no_big_int]; a_attrs := [] |} convert_first = true.
 Proof. vm_compute. repeat split. Qed.
 
+(* ------------------------------------------------------------------ the switch itself
+   Model: Errors/Switch.v (cells that are one per process or one per thread; histories of set_fail_fast /
+   failing_fast calls by any threads); the cells the two functions use are regenerated from the source
+   (Gen/SwitchSites.v). *)
+
+(* a switch written to and read from one process-wide cell is the documented switch under EVERY
+   interleaving of calls from any number of threads *)
+Theorem C18_switch_process_wide :
+  forall w r init cur evs,
+    process_wide w r = true -> alist_get init (the_cell w) = Some cur ->
+    run_switch w r (init_store init) evs = spec_switch cur evs.
+Proof. exact process_wide_sound. Qed.
+
+(* ... and that is what today's set_fail_fast / failing_fast are (kernel re-check on every run) *)
+Theorem C18_switch_today :
+  forall evs, run_switch switch_write switch_read (init_store switch_init) evs = spec_switch true evs.
+Proof. exact switch_is_process_wide. Qed.
+
+(* kept per thread (with a process-wide fallback) it is not: collect-all chosen in one thread is not seen in another *)
+Theorem C18_switch_thread_local_refuted :
+  forall x y,
+    run_switch (WCell (CLocal x)) (RCells [CLocal x; CGlobal y]) (init_store [(y, true)]) [ESet 0 false; EGet 1]
+    <> spec_switch true [ESet 0 false; EGet 1].
+Proof. exact thread_local_refuted. Qed.
+
 Print Assumptions all_templates_ok.
 Print Assumptions f19_wf.
 Print Assumptions C18_template_ok.
@@ -236,6 +262,9 @@ Print Assumptions C18_fail_fast_member.
 Print Assumptions C18_helper_total.
 Print Assumptions C18_deser_collect_all_safe.
 Print Assumptions C18_deser_collect_all_refuted.
+Print Assumptions C18_switch_process_wide.
+Print Assumptions C18_switch_today.
+Print Assumptions C18_switch_thread_local_refuted.
 Print Assumptions C18_guard_analysis_sound.
 Print Assumptions C18_guard_sites.
 Print Assumptions C18_kinds_ok.
